@@ -20,10 +20,11 @@ PROP = dict(
              "padding or a mutation; distinct = hash of (first header bytes, length, framing).",
         required_labels={"any": {"c06_parse/std-accept": 100, "c06_parse/sd-accept": 100, "c06_parse/std-reject": 100,
                                  "c06_parse/sd-reject": 100, "c06_parse/padding-chain": 10, "c06_parse/code3-vbr": 10,
-                                 "c06_parse/decoded": 10, "c06_parse/lbrr-set": 10}},
+                                 "c06_parse/decoded": 10, "c06_parse/lbrr-set": 10, "c06_parse/len>64Ki": 50}},
         exhaustive_parts={"thorough": ["family A: 256 TOC x 4 fills x length 0..1600 x 2 framings",
                                        "family B: 256 TOC x 256 first length bytes x 12 second bytes x 42 total lengths x 2 framings",
-                                       "family C: 64 code-3 TOCs x 256 count bytes x 12 padding chains x 25 length pairs x 16 total lengths x 2 framings"],
+                                       "family C: 64 code-3 TOCs x 256 count bytes x 12 padding chains x 25 length pairs x 16 total lengths x 2 framings",
+                                       "family D: 256 TOC x 4 second bytes x 70 total lengths around 2552 / 64 Ki / 128 Ki / 133623 x 2 framings"],
                           "quick": ["1/24 stratified slice of families A, B, C"]},
         assumptions=["The executable model in engine/rfc_framing.hpp is a faithful transcription of RFC 6716 section 3 and Appendix B.",
                      "Header helpers without a length argument are only called with len >= 1 (documented precondition)."],
